@@ -14,7 +14,7 @@ RULE = ('histories of add / remove / xml_x=None (removals at any position): (a) 
         'for alphabets <=4 in thorough) over a deterministic symbol subset of every type, (b) Hypothesis-drawn adaptive '
         'histories, (c) ALL histories "k adds then one removal" over the FULL alphabet of every type (k<=2 quick, '
         'k<=3 thorough), (d) every permutation with an inversion of every multiset (size<=3 quick, <=4 thorough) that '
-        'has a unique arrangement, followed by one removal at every position.  Twin B = fresh element of the same class to which the surviving children\'s names are added in '
+        'has a unique arrangement, followed by one removal at every position; the histories of (c) are repeated with a read-only to_string() just before the removal.  Twin B = fresh element of the same class to which the surviving children\'s names are added in '
         'their surviving insertion order.  Compared: to_string text, or exception type and missing-children message; '
         'schema-ordered child names; and, for every alphabet symbol (sampled in quick), the accept/reject verdict of '
         'adding it, obtained by replaying on fresh objects.  Non-trivial = >=1 successful removal of a child that '
@@ -123,7 +123,7 @@ def effective_ops(run):
             i = held.index(op[1])
             out.append(['remove', i])
             held.pop(i)
-        elif op[0] in ('remove', 'dot_none'):
+        elif op[0] in ('remove', 'dot_none', 'to_string'):
             pass
         else:
             out.append(list(op))
@@ -247,6 +247,14 @@ def run_shard(ctx, shard, acc):
                 acc.count('add-remove-histories')
                 if f:
                     acc.fail(f, raise_=False)
+                    continue
+                # the same history with a (read-only) serialisation just before the removal: what the removal
+                # restores must not depend on the element having been looked at
+                ops2 = ops[:-1] + [['to_string', 0], ops[-1]]
+                A2, f2 = check(els[0], ops2, [])
+                acc.case({'element': els[0], 'ops': ops2}, nontrivial(A), len(ops2))
+                if f2:
+                    acc.fail(f2, raise_=False)
         return
     te = gen.types_and_elements(all_elements=not ctx.quick)
     maxops = 10 if ctx.quick else 24
